@@ -106,10 +106,14 @@ def random_pair(rng, tier):
     n = int(rng.integers(6, 40)) if rng.random() < 0.6 else int(rng.integers(6, nmax + 1))
     na = n if rng.random() < 0.35 else int(rng.integers(max(5, n // 3), n + 1))
     act = np.sort(rng.choice(n, na, replace=False))
-    style = str(rng.choice(['spread', 'clustered', 'unit', 'repeated']))
+    style = str(rng.choice(['spread', 'clustered', 'unit', 'repeated', 'wide']))
     Q, _ = np.linalg.qr(rng.normal(size=(na, na)))
     if style == 'spread':
         w2 = 10 ** rng.uniform(0, 6, na)
+    elif style == 'wide':
+        # a few low (bending-like) modes under a mass of high (membrane-like) ones: omega^2 spans up to 5e9, as for thin panels
+        nlow = int(rng.integers(1, max(2, na // 3)))
+        w2 = np.concatenate([10 ** rng.uniform(0, 2, nlow), 10 ** rng.uniform(7, 9.7, na - nlow)])
     elif style == 'clustered':
         base = rng.uniform(5, 500)
         w = base + np.cumsum(rng.uniform(0.001, 0.08, na))
@@ -120,7 +124,7 @@ def random_pair(rng, tier):
         w = np.repeat(rng.uniform(1, 100, (na + 1) // 2), 2)[:na] * (1 + 1e-9 * rng.normal(size=na))
         w2 = w ** 2
     # M = L L^T random SPD, K = L Q diag(w2) Q^T L^T  => generalized eigenvalues exactly w2
-    Ma = eig.random_spd(rng, na, 10 ** rng.uniform(0.5, 4))
+    Ma = eig.random_spd(rng, na, 10 ** rng.uniform(0.5, 2 if style == 'wide' else 4))
     L = np.linalg.cholesky(Ma)
     Ka = L @ ((Q * w2) @ Q.T) @ L.T
     Ka = (Ka + Ka.T) / 2
